@@ -9,8 +9,10 @@ import EventppVerif.Q.DispAux
   `c.lists key`, skipping entries that are no longer present.
 
   * `C04_route_flat`: without filters and with listeners that return immediately, `dispatch key arg`
-    calls exactly the entries of `c.lists key`, in order, once each, each with `arg`; no list of
-    any event changes.
+    calls exactly the entries of `c.lists key` that the `CanContinueInvoking` policy lets run
+    (`policyCut`: all of them when `b.cont arg`, as with the default policy; otherwise the first
+    only), in order, once each, each with `arg`; no list of any event changes.
+    `C04_route_flat_all` is the case `b.cont arg = true`.
   * `C04_ops_*`: every listener-management command is the `SList` operation on that event's list and
     leaves the lists of all other events unchanged.
   * `C04_reentrant_route*`: for arbitrary (re-entrant) behaviours, every listener call a dispatch of
@@ -22,9 +24,11 @@ open Evp QCfg
 /-- **C04 (routing).**  No filters; the listeners return immediately.  From any configuration that
     is about to execute `dispatch key arg` there is a number of steps after which the program
     continues on the same stack and the trace has gained exactly one call per entry of
-    `c.lists key` — same order, each with handle and callback of the entry and with the argument
-    `arg` unchanged — followed by the result of the command; the listeners of every other event
-    are neither called nor affected: `lists k'` is unchanged for every `k'`. -/
+    `c.lists key` that the `CanContinueInvoking` policy `b.cont` lets run (`policyCut`: the whole
+    list if `b.cont arg`, its first entry only if not) — same order, each with handle and callback
+    of the entry and with the argument `arg` unchanged — followed by the result of the command; the
+    listeners of every other event are neither called nor affected: `lists k'` is unchanged for
+    every `k'`. -/
 theorem C04_route_flat (b : QBeh) (verdict : Cb → Nat → Bool) (hb : Flat b verdict) (c : QCfg)
     (key arg : Nat) (k : QRes → QProg) (rest : List QFrame) (hf : c.filters = [])
     (hst : c.stack = .prog (.op (.dispatch key arg) k) :: rest) :
@@ -33,12 +37,30 @@ theorem C04_route_flat (b : QBeh) (verdict : Cb → Nat → Bool) (hb : Flat b v
       (runN b n c).1.queue = c.queue ∧
       (runN b n c).1.trace =
         .res .unit ::
-          ((c.lists key).map (fun e => QEv.call ⟨.listener, key, e.id, e.cb, arg⟩)).reverse
+          ((policyCut b.cont arg (c.lists key)).map
+            (fun e => QEv.call ⟨.listener, key, e.id, e.cb, arg⟩)).reverse
             ++ c.trace := by
   obtain ⟨n, hn⟩ := dispatch_flat hb c key arg k rest hst
   refine ⟨n, by rw [hn], fun k' => by rw [hn], by rw [hn], ?_⟩
   rw [hn, hf]
   simp [dispatchCalls, callsFrom, listenerCalls, List.map_map, Function.comp_def]
+
+/-- **C04 (routing), the policy lets the dispatch continue** (hypothesis `b.cont arg = true`; it
+    holds for every `arg` with the default policy): *every* entry of `c.lists key` is called, in
+    order, once, with `arg`. -/
+theorem C04_route_flat_all (b : QBeh) (verdict : Cb → Nat → Bool) (hb : Flat b verdict) (c : QCfg)
+    (key arg : Nat) (k : QRes → QProg) (rest : List QFrame) (hf : c.filters = [])
+    (hc : b.cont arg = true)
+    (hst : c.stack = .prog (.op (.dispatch key arg) k) :: rest) :
+    ∃ n, (runN b n c).1.stack = .prog (k .unit) :: rest ∧
+      (∀ k', (runN b n c).1.lists k' = c.lists k') ∧
+      (runN b n c).1.queue = c.queue ∧
+      (runN b n c).1.trace =
+        .res .unit ::
+          ((c.lists key).map (fun e => QEv.call ⟨.listener, key, e.id, e.cb, arg⟩)).reverse
+            ++ c.trace := by
+  have := C04_route_flat b verdict hb c key arg k rest hf hst
+  rwa [policyCut_true hc] at this
 
 /-! ### listener management -/
 
